@@ -367,12 +367,36 @@ func GenBridgeBlock(m *BridgeModel, seed uint64, gap int, maxEvents int, legacyA
 		txh := genHash(r)
 		switch k := r.Intn(100); {
 		case k < 55:
-			b.Events = append(b.Events, bridgesync.Event{Bridge: &bridgesync.Bridge{
+			br := &bridgesync.Bridge{
 				BlockNum: num, BlockPos: pos, FromAddress: genAddr(r), TxHash: txh, Calldata: r.Bytes(r.Intn(40)),
 				BlockTimestamp: ts, LeafType: uint8(r.Intn(2)), OriginNetwork: genNet(r), OriginAddress: genAddr(r),
 				DestinationNetwork: genNet(r), DestinationAddress: genAddr(r), Amount: genAmount(r), Metadata: genMeta(r),
 				DepositCount: dc, IsNativeToken: r.Bool(50),
-			}})
+			}
+			// the leaf value does not contain the deposit count: the same bridge made twice gives the
+			// same leaf at two positions (same block or an older one), i.e. repeated nodes in the tree
+			if r.Bool(14) {
+				var prev []*bridgesync.Bridge
+				for _, e := range b.Events {
+					if pb := e.(bridgesync.Event).Bridge; pb != nil {
+						prev = append(prev, pb)
+					}
+				}
+				for i := len(m.Blocks) - 1; i >= 0 && len(prev) < 12; i-- {
+					for _, e := range m.Blocks[i].Events {
+						if pb := e.(bridgesync.Event).Bridge; pb != nil {
+							prev = append(prev, pb)
+						}
+					}
+				}
+				if len(prev) > 0 {
+					pb := prev[r.Intn(len(prev))]
+					br.LeafType, br.OriginNetwork, br.OriginAddress = pb.LeafType, pb.OriginNetwork, pb.OriginAddress
+					br.DestinationNetwork, br.DestinationAddress = pb.DestinationNetwork, pb.DestinationAddress
+					br.Amount, br.Metadata = new(big.Int).Set(pb.Amount), append([]byte(nil), pb.Metadata...)
+				}
+			}
+			b.Events = append(b.Events, bridgesync.Event{Bridge: br})
 			dc++
 		case k < 80:
 			var pl, pr [32]common.Hash
@@ -768,6 +792,10 @@ func GenL1Block(m *L1Model, seed uint64, gap int, maxEvents int, wrongV2 bool) M
 	tmp := m.Tree.Clone()
 	pos := uint64(0)
 	curRollup := m.Rollup.Clone()
+	seenRoots := map[common.Hash]bool{}
+	for _, v := range m.VBs {
+		seenRoots[v.NewRER] = true
+	}
 	for i := 0; i < n; i++ {
 		pos += uint64(1 + r.Intn(2))
 		switch k := r.Intn(100); {
@@ -804,7 +832,7 @@ func GenL1Block(m *L1Model, seed uint64, gap int, maxEvents int, wrongV2 bool) M
 				rid = uint32(1 + r.Intn(1<<20))
 			}
 			var er common.Hash
-			switch r.Intn(6) {
+			switch r.Intn(7) {
 			case 0:
 				er = common.Hash{}
 			case 1:
@@ -813,10 +841,34 @@ func GenL1Block(m *L1Model, seed uint64, gap int, maxEvents int, wrongV2 bool) M
 				} else {
 					er = genHash(r)
 				}
+			case 2:
+				// a position goes back to a value it (or another position) held before: repeated
+				// nodes low in the updatable tree under a new root
+				er = genHash(r)
+				if len(m.VBs) > 0 {
+					pv := m.VBs[r.Intn(len(m.VBs))]
+					if r.Bool(70) {
+						rid = pv.RollupID
+					}
+					er = pv.ExitRoot
+				}
 			default:
 				er = genHash(r)
 			}
 			if er != (common.Hash{}) {
+				if cur, ok := curRollup.Leaves[rid-1]; !ok || cur != er {
+					// the rollup exit tree keys its roots by hash: a history that brings the WHOLE tree back to
+					// an earlier root is refused by the store (outside the properties; see DESIGN 14) - not generated
+					t := curRollup.Clone()
+					t.Set(rid-1, er)
+					nr := t.Root()
+					for seenRoots[nr] {
+						er = genHash(r)
+						t.Set(rid-1, er)
+						nr = t.Root()
+					}
+					seenRoots[nr] = true
+				}
 				curRollup.Set(rid-1, er)
 			}
 			b.Events = append(b.Events, l1infotreesync.Event{VerifyBatches: &l1infotreesync.VerifyBatches{
